@@ -53,17 +53,22 @@ def listMin (l : List Rat) : Rat := l.foldl min (l.headD 0)
 def bigM (ranges : List (Rat × Rat)) : Rat :=
   (listMax (ranges.map (·.2)) - listMin (ranges.map (·.1))) * 2
 
+/-- big-M of the rows linking `y` to the constants: the spread of the constants
+(`M_y = max(constants) - min(constants)`; before fix 445f2b7 the code used `bigM ranges` here) -/
+def bigMy (constants : List Rat) : Rat := listMax constants - listMin constants
+
 /-- LP fragment of `add_piecewise_constant_constraint(x, y, ranges, constants, name)` -/
 def piecewise (x y : Var) (ranges : List (Rat × Rat)) (constants : List Rat) (name : String) : LP :=
   let M := bigM ranges
+  let My := bigMy constants
   let idx := List.range ranges.length
   { cols := idx.map (fun i => { v := zVar name i, lb := 0, ub := some 1, isInt := true }),
     rows := [rowEq (idx.map (fun i => ((1:Rat), zVar name i))) 1]
       ++ (idx.zip (ranges.zip constants)).flatMap (fun (i, (lu, c)) =>
           [ rowGe [(1, x), (-M, zVar name i)] (lu.1 - M),   -- x ≥ L − M(1 − z)
             rowLe [(1, x), (M, zVar name i)] (lu.2 + M),    -- x ≤ U + M(1 − z)
-            rowLe [(1, y), (M, zVar name i)] (c + M),       -- y ≤ c + M(1 − z)
-            rowGe [(1, y), (-M, zVar name i)] (c - M) ]) }  -- y ≥ c − M(1 − z)
+            rowLe [(1, y), (My, zVar name i)] (c + My),     -- y ≤ c + M_y(1 − z)
+            rowGe [(1, y), (-My, zVar name i)] (c - My) ]) } -- y ≥ c − M_y(1 − z)
 
 /-! ## State machine of the wrapper -/
 
